@@ -13,7 +13,7 @@ from ..engine import flow, cfg as cfgmod
 from ..engine import pattern as P
 from ..engine.facts import dotted, const, src, walk_func, enclosing_stmt
 from . import skeletons as sk
-from .common import calls, contains, pn, access_paths, assigned_from, branch_paths
+from .common import calls, contains, pn, access_paths, assigned_from, branch_paths, resolve, resolve_deep
 from .common import _fold_not as _fold
 
 
@@ -172,16 +172,29 @@ def wiring(ctx):
     a = [s for s in walk_func(fn) if isinstance(s, ast.Assign) and isinstance(s.targets[0], ast.Attribute) and s.targets[0].attr == "inherits" and src(s.targets[0].value) in ihs]
     ctx.require(a and len(ihs) == 1 and len(lcs) == 1 and len(tvs) == 1, "_inherit_from does not assign <tail>.inherits (tail %s, parent context %s, template %s)" % (sorted(ihs), sorted(lcs), sorted(tvs)))
     ih, lcl, tv = sorted(ihs)[0], sorted(lcs)[0], sorted(tvs)[0]
-    v = a[0].value
+    v = resolve(fn, a[0].value)
     kw = {k.arg: src(k.value) for k in v.keywords} if isinstance(v, ast.Call) else {}
     ctx.check(isinstance(v, ast.Call) and dotted(v.func) == "TemplateNamespace" and src(v.args[1]) == lcl and kw.get("template") == tv and kw.get("populate_self") == "False", "parent-namespace", db.where(a[0]), "parent namespace is built as %s" % src(v), "TemplateNamespace('self:<uri>', lclcontext, template=template, populate_self=False)")
-    pub = [s for s in walk_func(fn) if isinstance(s, ast.Assign) and len(s.targets) == 2]
-    ok = any({src(x) for x in s.targets} == {"%s._data['parent']" % pn(fn, 0), "%s._data['local']" % lcl} and src(s.value) == ih + ".inherits" for s in pub)
+    # what is published under both names is the object stored as <tail>.inherits (read back, or the same local)
+    same = {ih + ".inherits", src(a[0].value)} if isinstance(a[0].value, ast.Name) else {ih + ".inherits"}
+    published = {}
+    for s in walk_func(fn):
+        if isinstance(s, ast.Assign):
+            for x in s.targets:
+                if src(x) in ("%s._data['parent']" % pn(fn, 0), "%s._data['local']" % lcl):
+                    published.setdefault(src(x), []).append(src(s.value))
+    ok = len(published) == 2 and all(len(vs) == 1 and vs[0] in same for vs in published.values())
     ctx.check(ok, "parent-local", db.where(fn), "the namespace stored as ih.inherits is not the one published as `parent` of the child and `local` of the parent", "parent (child's context) = local (parent's context) = ih.inherits")
-    ctx.check(P.has(fn, "$f = getattr($t.module, '_mako_inherit', None)\nif $f is not None:\n    $r = $f($t, $l)\n    if $r:\n        return $r"), "recursive-inherit", db.where(fn), "the parent's own _mako_inherit is not followed", "follows the parent's <%inherit> first")
+    def _via_module(attr, then):
+        for _n, env_ in P.find(fn, "$f = getattr($mod, '%s', None)\nif $f is not None:\n%s" % (attr, then)):
+            m_ = env_["mod"][1]
+            if src(m_) == tv + ".module" or (isinstance(m_, ast.Name) and src(resolve(fn, m_, 1)) == tv + ".module"):
+                return True
+        return False
+    ctx.check(_via_module("_mako_inherit", "    $r = $f(%s, %s)\n    if $r:\n        return $r" % (tv, lcl)), "recursive-inherit", db.where(fn), "the parent's own _mako_inherit is not followed", "follows the parent's <%inherit> first")
     r = [x for x in walk_func(fn) if isinstance(x, ast.Return)]
     ctx.check(P.has(fn, "$l = $c._locals($_)\n...\nreturn ($t.callable_, $l)"), "returns-base-body", db.where(fn), "does not return the base-most template's body with its context", "returns (base body, its context)")
-    ctx.check(P.has(fn, "$g = getattr($t.module, '_mako_generate_namespaces', None)\nif $g is not None:\n    $g($c)"), "parent-namespaces", db.where(fn), "the parent's namespaces are not generated", "parent's <%namespace> tags generated")
+    ctx.check(_via_module("_mako_generate_namespaces", "    $f(%s)" % pn(fn, 0)), "parent-namespaces", db.where(fn), "the parent's namespaces are not generated", "parent's <%namespace> tags generated")
     ps = db.func("runtime._populate_self_namespace")
     t = src(ps)
     ctx.check(P.has(ps, "$c._data['self'] = $c._data['local'] = $s") or P.has(ps, "$c._data['local'] = $c._data['self'] = $s"), "self-local", db.where(ps), "self and local are not the template's own namespace at the start", "self = local = own namespace")
